@@ -207,7 +207,7 @@ def beInfo? (usage : Int → Int → Int) (usedDiv : Int) (cpu : Bool) (p : Pod)
   if !policyAllowed p.policy then none else
   let used := if p.hasMetric then Int.tdiv p.used usedDiv else 0
   let req := if cpu then p.batchReq else 0
-  some { pod := p, prio := p.specPrio.getD 0, labelPrio := 0, evictPrio := 0,
+  some { pod := p, prio := 0, labelPrio := 0, evictPrio := 0,
          used := used, request := req,
          usageKey := if req > 0 then usage used req else 0 }
 
